@@ -85,8 +85,42 @@ def r1_grammar(repo=None):
             raise AnalysisError("%s: `%s.match(...)` result or `%s.append` not found" % (q, regex_name, sink_attr))
         if all(pyutil.truth_guarded(g, x.id, mv) for x in sinks):
             r.ok("%s:%s %s" % (m.rel, sinks[0].line, q), what)
-        else:
+            return
+        # the match result may reach the sink through other locals (a helper returning None for "no match", inlined): path-sensitive
+        # truthiness of all simple locals; a violation needs a state at the sink in which the match is known to have failed
+        assigned = {t.id for n in pyfront.walk_no_nested(f) if isinstance(n, ast.Assign) for t in n.targets if isinstance(t, ast.Name)}
+        tested = set()
+        for cn in g.nodes:
+            if cn.kind == "cond" and cn.ast is not None:
+                e_ = cn.ast
+                if isinstance(e_, ast.Compare) and isinstance(e_.left, ast.Name):
+                    e_ = e_.left
+                if isinstance(e_, ast.Name):
+                    tested.add(e_.id)
+        simple = ({mv} | tested) & (assigned | {mv})
+        changed = True
+        while changed:          # the locals a tested one is a plain copy of
+            changed = False
+            for n in pyfront.walk_no_nested(f):
+                if isinstance(n, ast.Assign) and len(n.targets) == 1 and isinstance(n.targets[0], ast.Name) and n.targets[0].id in simple \
+                        and isinstance(n.value, ast.Name) and n.value.id in assigned and n.value.id not in simple:
+                    simple.add(n.value.id)
+                    changed = True
+        simple = sorted(simple)
+        if len(simple) > 10:
+            raise AnalysisError("%s: too many locals (%d) between the %s match and `%s.append` for the path-sensitive pass" % (q, len(simple), regex_name, sink_attr))
+        IN, idx = pyutil.truth_states(g, simple, skip=())
+        verdicts = []
+        for x in sinks:
+            sts = IN.get(x.id, set())
+            vals = {st[idx[mv]] for st in sts} if mv in idx else {"U"}
+            verdicts.append(vals)
+        if all(v and v <= {"T"} for v in verdicts):
+            r.ok("%s:%s %s" % (m.rel, sinks[0].line, q), what + " (path-sensitive)")
+        elif any("F" in v for v in verdicts):
             r.violation(m.rel, q, "%s.append not guarded by the %s match" % (sink_attr, regex_name), why, line=sinks[0].line)
+        else:
+            raise AnalysisError("%s: whether `%s.append` is reached only after a successful %s match was not decided" % (q, sink_attr, regex_name))
 
     dd = m.fn(DD)
     ret = [n for n in pyfront.walk_no_nested(dd) if isinstance(n, ast.Return) and isinstance(n.value, ast.Name)]
@@ -1540,8 +1574,56 @@ def r14_times_do_not_depend_on_the_process_time_zone(repo=None):
     return r
 
 
+def r15_the_walk_is_always_reached(repo=None):
+    """'complete: every finalized file under the path is listed': the listing's special case for a path that is *named* like a
+    time-stamped sub-directory is entered on the name alone; only inside it is the parent examined for a properties file.  A
+    directory of that name that is not a sub-directory of a channel (an experiment directory called 2024-05-01T00-00-00) must
+    still be walked.  On the CFG of ilsdrf: every `return` (or end) that can be reached without passing the os.walk loop is
+    reached only over the true edge of a test of the value obtained from the properties-file match of the parent - leaving early
+    is allowed only once the path is known to be a channel's sub-directory."""
+    r = Rule("C14.R15", "ilsdrf ends without walking the path only when the path is known to be a sub-directory of a channel")
+    m = pyfront.mod("list_drf", repo)
+    q = "ilsdrf"
+    f = m.fn(q)
+    g = m.cfg(q)
+    heads = [n for n in g.nodes if n.kind == "cond" and isinstance(n.ast, ast.For) and isinstance(n.ast.iter, ast.Call) and pyfront.call_name(n.ast.iter) == "os.walk"]
+    if len(heads) != 1:
+        raise AnalysisError("%s: the loop over os.walk(...) was not found exactly once" % q)
+    head = heads[0]
+    # names that say "the parent holds a properties file": defined from an expression that mentions a *PROP* regex
+    prop_names = set()
+    for n in ast.walk(f):
+        if isinstance(n, ast.Assign) and len(n.targets) == 1 and isinstance(n.targets[0], ast.Name) \
+                and any(isinstance(y, ast.Name) and "PROP" in y.id for y in ast.walk(n.value)):
+            prop_names.add(n.targets[0].id)
+
+    def knows_channel(a, b, lab):
+        na = g.nodes[a]
+        if na.kind == "cond" and isinstance(na.ast, ast.Name) and na.ast.id in prop_names and lab == "T":
+            return False        # do not follow: beyond this edge the path is known to be a channel's sub-directory
+        return True
+    reach = g.reach([g.entry.id], avoid=[head.id], edge_filter=knows_channel, skip_labels=("exc",))
+    early = [n for n in g.nodes if n.id in reach and (n.kind == "return" or n is g.exit)]
+    rets = [n for n in early if n.kind == "return"]
+    if not rets and g.exit.id in reach:
+        # the end of the function reached without the walk (all walking code under a condition)
+        conds = [n for n in g.nodes if n.id in reach and n.kind == "cond" and n.ast is not None and not isinstance(n.ast, (ast.For, ast.While))]
+        if conds and not prop_names:
+            raise AnalysisError("%s: the function can end without the walk and no properties-file test was recognised: not decided" % q)
+    if rets:
+        x = rets[0]
+        r.violation(m.rel, q, norm(ast.unparse(x.ast))[:40] + " (line %d)" % x.line, "the listing can return without walking the path on a route that "
+                    "has not established that the path is a sub-directory of a channel (the special case is entered on the *name* of the "
+                    "path alone): a top-level or experiment directory named like YYYY-MM-DDTHH-MM-SS is not listed at all", line=x.line)
+    else:
+        r.ok("%s:%s %s" % (m.rel, head.line, q), "every return before the os.walk loop lies behind a successful properties-file test of the parent (%s)" % (
+            ", ".join(sorted(prop_names)) or "none needed: no early return"))
+    r.guard(1)
+    return r
+
+
 def rules(repo=None):
-    return [lambda: r14_times_do_not_depend_on_the_process_time_zone(repo), lambda: r13_list_form_is_the_generator(repo), lambda: r12_walk_prunes_only_inside_channels(repo), lambda: r11_sort_keys_and_vanished_first_subdir(repo), lambda: r1_grammar(repo), lambda: r2_kind_tables(repo), lambda: r3_sorted_before_sliced(repo),
+    return [lambda: r15_the_walk_is_always_reached(repo), lambda: r14_times_do_not_depend_on_the_process_time_zone(repo), lambda: r13_list_form_is_the_generator(repo), lambda: r12_walk_prunes_only_inside_channels(repo), lambda: r11_sort_keys_and_vanished_first_subdir(repo), lambda: r1_grammar(repo), lambda: r2_kind_tables(repo), lambda: r3_sorted_before_sliced(repo),
             lambda: r4_robust_listing(repo), lambda: r5_lookback_complete(repo),
             lambda: r6_reverse_changes_only_the_order(repo), lambda: r7_window_end_inclusive(repo),
             lambda: r8_forward_fill_file_always_taken(repo), lambda: r9_grammar_names_that_are_not_times(repo),
@@ -1549,6 +1631,8 @@ def rules(repo=None):
 
 
 EXPLANATION = (
+    'R15: on the CFG of ilsdrf no return is reachable without passing the os.walk loop except behind the true edge of the test of the '
+    "parent's properties-file match. "
     'R1: regular-language identities on the folded constants (FILE = DRFFILE | DMDFILE, PROPFILE = DRFPROP | DMDPROP, '
     'kinds disjoint, no tmp. name accepted, _RE_SUBDIR anchored) and the structural facts that files are kept only after '
     'a regex match, only in matched sub-directories of directories holding a properties file. R2: the if/elif chains that'
